@@ -61,6 +61,7 @@ def gen_case(rng, cid):
             burst = [(rng.randrange(3), rng.choice(sizes)) for _ in range(rng.choice([1, 1, 1, 2, 3, 5]))]
             script.append((d, burst))
         c['sources'].append(script)
+    c['own_ids'] = rng.random() < 0.3          # sources number their packets independently: ids collide on the port
     c['monitor'] = None
     if rng.random() < 0.4:
         c['monitor'] = {'included': rng.random() < 0.5, 'period': rng.choice([0.5, 1, 3, 7.25])}
@@ -89,7 +90,7 @@ def run_impl(c):
     run = FifoRun(env, port, snap_port, draws)
     counter = [0]
     for script in c['sources']:
-        env.process(source(env, run, script, counter, 3))
+        env.process(source(env, run, script, [0] if c.get('own_ids') else counter, 3))
     horizon = [0]
     if c['monitor']:
         n = [0]
